@@ -89,6 +89,8 @@ pub enum AppEv {
     WriteErr { stream: usize, end: usize, kind: String },
     /// first time a write returned Pending
     WriteBlocked { stream: usize, end: usize },
+    /// first time a read returned Pending
+    ReadBlocked { stream: usize, end: usize },
     ReadOk { stream: usize, end: usize, n: usize },
     ReadEof { stream: usize, end: usize },
     ReadErr { stream: usize, end: usize, kind: String },
